@@ -147,6 +147,16 @@ def gen_xs(rng, t, k, thorough):
     for v in rng.sample(distinct, min(len(distinct), 3)):
         xs.append(math.nextafter(v, math.inf))
         xs.append(math.nextafter(v, -math.inf))
+    # points at SMALL RELATIVE DISTANCES from knots (1e-7 .. 1e-3 of the domain width, both sides): a function that has just
+    # entered or is about to leave its support is tiny there but not zero, and a point near an end is not the end
+    width = hi - lo
+    if width > 0 and math.isfinite(width):
+        for v in rng.sample(distinct, min(len(distinct), 4)) + [lo, hi]:
+            for rel in (1e-7, 5e-7, 2e-6, 1e-4, 2e-3):
+                for sgn in (1.0, -1.0):
+                    y = v + sgn * rel * width
+                    if lo <= y <= hi and rng.random() < 0.5:
+                        xs.append(y)
     # outside the domain
     span = max(1.0, hi - lo)
     xs += [lo - rng.uniform(0.1, 2) * span, hi + rng.uniform(0.1, 2) * span]
